@@ -58,8 +58,10 @@ type Job struct {
 	PreciseFeas bool `json:"precise_feas"`
 	// SummariseLogAdd (real mode): LogAdd(a,b) is replaced by its summary log(exp a + exp b)
 	// (discharged against the bodies by the C02 check), so the branch a > b does not fork
-	SummariseLogAdd bool              `json:"summarise_logadd"`
-	Concrete        map[string]string `json:"concrete"` // self-test: variable values, no symbols
+	SummariseLogAdd bool `json:"summarise_logadd"`
+	// BFS: explore pending prefixes first-in first-out (shallow paths first)
+	BFS      bool              `json:"bfs"`
+	Concrete map[string]string `json:"concrete"` // self-test: variable values, no symbols
 }
 
 type Obligation struct {
@@ -1135,8 +1137,14 @@ func (in *Interp) RunJob(job Job) *JobRes {
 			res.Truncated = true
 			break
 		}
-		prefix := in.work[len(in.work)-1]
-		in.work = in.work[:len(in.work)-1]
+		var prefix []Decision
+		if job.BFS {
+			prefix = in.work[0]
+			in.work = in.work[1:]
+		} else {
+			prefix = in.work[len(in.work)-1]
+			in.work = in.work[:len(in.work)-1]
+		}
 		pr := in.runPath(fn, args, prefix, id)
 		res.Paths = append(res.Paths, pr)
 		id++
